@@ -67,6 +67,17 @@ def run_slots(rec, S):
                 param_ctors.setdefault((h, pn), set()).add(ev.name)
         for name, f in fns.items():
             evs = synq.events(f)
+            if file == PEEPHOLE:
+                # in the rewrite functions an instruction is emitted by cursor.write(..); a constructor that appears as any
+                # other argument (`instructions.skip(SymbolicByteCode::PropertySlot)`: the value expected there) emits nothing
+                from ..facts import walk_expr as _we
+                written = set()
+                for ev_ in evs:
+                    if ev_.kind == "call" and ev_.name == "write":
+                        for a_ in ev_.node.get("args") or []:
+                            for x_ in _we(a_):
+                                written.add(id(x_))
+                evs = [ev_ for ev_ in evs if ev_.kind != "op" or id(ev_.node) in written]
             pseudo = [e for e in evs if e.kind == "call" and (name, e.name) in param_ctors and e.node.get("e") == "call"]
             for e in pseudo:
                 e.kind = "op"
